@@ -69,6 +69,7 @@ D_takeover_ge == {"takeover_ge"}
 D_validation_first_error_demotes == {"validation_first_error_demotes"}
 D_validation_failure_notifies_unconditionally == {"validation_failure_notifies_unconditionally"}
 D_disconnect_ignored_while_follower == {"disconnect_ignored_while_follower"}
+D_stale_observation_regresses == {"stale_observation_regresses"}
 D_watch_failure_gives_up == {"watch_failure_gives_up"}
 D_aborted_stop_skips_ondemote == {"aborted_stop_skips_ondemote"}
 D_watcher_demotion_without_callback == {"watcher_demotion_without_callback"}
